@@ -109,6 +109,9 @@ func ParseFieldValue(fd pref.FieldDescriptor, rawValue string, locationName stri
 		// NOTE: IEEE-754 64-bit floats (float64 in Go) can only accurately
 		// represent integers in the range [-2^53,2^53].
 		val, err := strconv.ParseFloat(value, 64)
+		if math.IsNaN(val) {
+			return DefaultInt32Value, false, xerrors.E2012("int32", value, strconv.ErrSyntax)
+		}
 		if val < math.MinInt32 || val > math.MaxInt32 {
 			return DefaultInt32Value, false, xerrors.E2000("int32", value, math.MinInt32, math.MaxInt32)
 		}
@@ -122,6 +125,9 @@ func ParseFieldValue(fd pref.FieldDescriptor, rawValue string, locationName stri
 		// val, err := strconv.ParseUint(value, 10, 32)
 		// Keep compatibility with excel number format.
 		val, err := strconv.ParseFloat(value, 64)
+		if math.IsNaN(val) {
+			return DefaultUint32Value, false, xerrors.E2012("uint32", value, strconv.ErrSyntax)
+		}
 		if val < 0 || val > math.MaxUint32 {
 			return DefaultUint32Value, false, xerrors.E2000("uint32", value, 0, math.MaxUint32)
 		}
@@ -167,6 +173,10 @@ func ParseFieldValue(fd pref.FieldDescriptor, rawValue string, locationName stri
 			return DefaultFloat32Value, false, nil
 		}
 		val, err := strconv.ParseFloat(value, 32)
+		if err == nil && (math.IsNaN(val) || math.IsInf(val, 0)) {
+			// "NaN", "Inf" and "Infinity" are not numbers
+			err = strconv.ErrSyntax
+		}
 		return pref.ValueOfFloat32(float32(val)), true, xerrors.E2012("float", value, err)
 
 	case pref.DoubleKind:
@@ -175,6 +185,10 @@ func ParseFieldValue(fd pref.FieldDescriptor, rawValue string, locationName stri
 			return DefaultFloat64Value, false, nil
 		}
 		val, err := strconv.ParseFloat(value, 64)
+		if err == nil && (math.IsNaN(val) || math.IsInf(val, 0)) {
+			// "NaN", "Inf" and "Infinity" are not numbers
+			err = strconv.ErrSyntax
+		}
 		return pref.ValueOfFloat64(val), true, xerrors.E2012("double", value, err)
 
 	case pref.StringKind:
